@@ -15,6 +15,20 @@ def hx(b):
 PATHS = ["emb", "cli", "raw", "pipe"]
 
 
+def _exact_seconds(ms):
+    """is a duration / instant of `ms` milliseconds carried exactly as float seconds (Duration.Seconds()
+    on the sender, float64 * 1e9 on the receiver)?  Only such values are used for EX / EXAT, so that the
+    comparison never depends on float rounding."""
+    ns = ms * 1_000_000
+    sec, nsec = divmod(ns, 1_000_000_000)
+    f = float(sec) + float(nsec) / 1e9
+    f2 = float(repr(f))
+    return int(f2 * 1e9) == ns and int((ms / 1000.0) * 1e9) == ns
+
+
+EX_MS = [ms for ms in (250, 500, 750, 900, 1000, 1250, 1500, 1900, 2000, 2500, 60000) if _exact_seconds(ms)]
+
+
 class Oracle:
     def __init__(self):
         self.ref = {}
@@ -125,6 +139,88 @@ class Oracle:
             cur[2] = self.now
             self.hit("expire_present")
             return None if reply == "ok" else "expire via %s/m%s: %s" % (a[0], a[1], reply)
+        if name == "c.pipeline":
+            outs = reply.split("|")
+            cmds = a[3:]
+            if reply.startswith("exec:") or len(outs) != len(cmds):
+                return "pipeline of %d commands answered %s" % (len(cmds), reply[:120])
+            self.hit("pipeline_multi")
+            for c, got in zip(cmds, outs):
+                f = c.split(":")
+                sub = {"put": "c.put", "get": "c.get", "getput": "c.getput", "del": "c.del", "incr": "c.incr", "decr": "c.decr",
+                       "expire": "c.expire"}[f[0]]
+                msg = self.observe("%s pipe %s %s %s" % (sub, a[1], a[2], " ".join(f[1:])), got)
+                if msg:
+                    return "pipeline future %s: %s" % (c[:40], msg)
+            kinds = [c.split(":")[0] for c in cmds]
+            if kinds.count("getput") >= 2:
+                self.hit("pipeline_two_getputs")
+            return None
+        if name == "c.getput":
+            dk = (a[2], a[3])
+            cur = self.live(dk)
+            exp = cur[0] if cur is not None else "none"
+            self.ref[dk] = [a[4], self.ttl_of([], dttl), self.now]
+            self.last_mut = dk
+            self.hit("getput")
+            return None if reply == exp else "getput via %s/m%s returned %s, previous value %s" % (a[0], a[1], reply[:60], exp[:60])
+        if name in ("c.incr", "c.decr"):
+            dk = (a[2], a[3])
+            cur = self.live(dk)
+            base, ttl = 0, 0
+            if cur is not None:
+                try:
+                    txt = bytes.fromhex(cur[0]).decode() if cur[0] != "-" else ""
+                    base = int(txt) if txt.lstrip("+-").isdigit() else 0
+                    ttl = cur[1] if txt.lstrip("+-").isdigit() else 0
+                except Exception:
+                    base, ttl = 0, 0
+                if cur[1]:
+                    self.hit("incr_keeps_ttl")
+            delta = int(a[4]) if name == "c.incr" else -int(a[4])
+            new = base + delta
+            self.ref[dk] = [str(new).encode().hex(), ttl if ttl else self.ttl_of([], dttl), self.now]
+            self.last_mut = dk
+            self.hit("incr_decr")
+            if new < 0:
+                self.hit("negative_counter")
+            return None if reply == str(new) else "%s via %s/m%s returned %s, expected %d" % (name[2:], a[0], a[1], reply, new)
+        if name == "c.lock":
+            dk = (a[2], a[3])
+            cur = self.live(dk)
+            if cur is not None:
+                self.hit("lock_contended")
+                return None if reply == "notacquired" else "lock on a held key via %s/m%s: %s" % (a[0], a[1], reply)
+            if not reply.startswith("tok"):
+                return "lock on a free key via %s/m%s: %s" % (a[0], a[1], reply)
+            to = int(a[4]) or dttl          # a DMap-wide default TTL applies to lock entries like to any entry
+            self.ref[dk] = ["T:" + reply, (self.now // 1_000_000 + to) if to else 0, self.now]
+            self.tokpath = getattr(self, "tokpath", {})
+            self.tokpath[reply] = a[0]
+            self.hit("lock_acquired" + ("_with_timeout" if to else ""))
+            if int(a[1]) != (self.route.get(dk, ([0], []))[0] or [0])[-1] and to:
+                self.hit("timed_lock_via_non_owner")
+            return None
+        if name in ("c.unlock", "c.lease"):
+            dk = (a[2], a[3])
+            cur = self.live(dk)
+            good = cur is not None and cur[0] == "T:" + a[4]
+            if not good:
+                self.hit("wrong_token")
+                return None if reply == "nolock" else "%s with a token that is not the holder's via %s/m%s: %s" % (name[2:], a[0], a[1], reply)
+            if name == "c.unlock":
+                self.ref.pop(dk, None)
+            else:
+                ms = int(a[5]) or dttl
+                cur[1] = self.now // 1_000_000 + ms if ms else 0
+                cur[2] = self.now
+                self.hit("lease_ok")
+            return None if reply == "ok" else "%s with the holder's token via %s/m%s: %s" % (name[2:], a[0], a[1], reply)
+        if name == "c.destroy":
+            for dk in [x for x in self.ref if x[0] == a[2]]:
+                self.ref.pop(dk)
+            self.hit("destroy")
+            return None if reply == "ok" else "destroy: %s" % reply
         if name == "wb":
             dk = (a[0], a[1])
             route = self.route.get(dk)
@@ -140,6 +236,8 @@ class Oracle:
                 p, b = rest.split(",")
                 copies[int(mi[1:])] = (p[2:], b[2:])
             ref = self.ref.get(dk)
+            if ref is not None and ref[0].startswith("T:"):
+                ref = None if False else [copies[owner][0].split("/")[0], ref[1], ref[2]]   # token bytes are random
             pc = copies[owner][0]
             if ref is None:
                 if pc != "-":
@@ -180,8 +278,11 @@ class Gen:
         ttl = r.choice([0, 0, 0, 3000])
         yield "watchdog 60s"
         yield "clock %d" % self.now
+        tsize = r.choice([512, 512, 4096, 1 << 20])
+        # small tables + few partitions: fragments span several tables, keys live in older tables
+        parts = r.choice([3, 3, 7]) if tsize == 512 else r.choice([7, 23])
         yield "c.new n=%d r=%d w=%d rq=%d parts=%d tsize=%d rr=%d ttl_ms=%d" % (
-            n, R, W, RQ, r.choice([7, 23]), r.choice([512, 4096, 1 << 20]), r.choice([0, 0, 1]), ttl)
+            n, R, W, RQ, parts, tsize, r.choice([0, 0, 1]), ttl)
         dms = ["dm", "dm2"]
         keys = [b"k%d" % i for i in range(r.choice([2, 4, 8]))]
         ver = 0
@@ -194,7 +295,7 @@ class Gen:
             w = r.random()
             if w < 0.35:
                 ver += 1
-                val = hx(b"v%d" % ver + b"x" * r.choice([0, 0, 10, 200]))
+                val = hx(b"v%d" % ver + b"x" * r.choice([0, 10, 100, 200]))
                 opts = []
                 c = r.random()
                 if c < 0.2:
@@ -203,11 +304,13 @@ class Gen:
                     opts.append("XX")
                 t = r.random()
                 if t < 0.12:
-                    opts += ["EX", str(r.choice([1000, 2000, 60000]))]      # whole seconds: exact as float seconds
+                    opts += ["EX", str(r.choice(EX_MS))]      # fractional seconds too, but only float-exact ones
                 elif t < 0.24:
                     opts += ["PX", str(r.choice([1, 50, 500, 3000]))]
                 elif t < 0.32:
-                    opts += ["EXAT", str((self.now // 1_000_000_000 + r.choice([1, 4])) * 1000)]  # whole seconds
+                    cand = [(self.now // 1_000_000_000 + d) * 1000 + f for d in (1, 4) for f in (0, 500)]
+                    cand = [x for x in cand if _exact_seconds(x)] or [(self.now // 1_000_000_000 + 1) * 1000]
+                    opts += ["EXAT", str(r.choice(cand))]
                 elif t < 0.40:
                     opts += ["PXAT", str(self.now // 1_000_000 + r.choice([-5, 7, 700]))]
                 r.shuffle(opts) if len(opts) == 1 else None
@@ -229,12 +332,68 @@ class Gen:
                 yield "c.del %s %d %s %s" % (path if path != "pipe" or len(ks) == 1 else "cli", m, dm, " ".join(ks))
                 for k in ks:
                     yield "wb %s %s" % (dm, k)
-            elif w < 0.84:
+            elif w < 0.80:
                 yield "c.expire %s %d %s %s %d" % (path, m, dm, key, r.choice([0, 1, 100, 2000, 50000]))
                 yield "wb %s %s" % (dm, key)
+            elif w < 0.84:
+                ver += 1
+                yield "c.getput %s %d %s %s %s" % (path if path != "pipe" else "emb", m, dm, key, hx(b"g%d" % ver))
+                yield "wb %s %s" % (dm, key)
+            elif w < 0.89:
+                ckey = hx(b"ctr%d" % r.randrange(2))
+                yield "c.own %s %s" % (dm, ckey)
+                if r.random() < 0.15:
+                    yield "c.put %s %d %s %s %s PX %d" % (r.choice(["emb", "cli"]), m, dm, ckey, hx(str(r.randint(-5, 50)).encode()), r.choice([2000, 60000]))
+                yield "c.%s %s %d %s %s %d" % (r.choice(["incr", "incr", "decr"]), path if path != "pipe" else "cli", m, dm, ckey, r.choice([1, 2, 7, 100]))
+                yield "wb %s %s" % (dm, ckey)
+            elif w < 0.95:
+                lkey = hx(b"lock%d" % r.randrange(2))
+                yield "c.own %s %s" % (dm, lkey)
+                lp = path if path != "pipe" else "raw"
+                c = r.random()
+                cur = orc.live((dm, lkey))
+                if c < 0.45:
+                    yield "c.lock %s %d %s %s %d %d" % (lp, m, dm, lkey, r.choice([0, 0, 300, 2000]), 15)
+                else:
+                    # the holder's own token travels the way it was obtained (an API LockContext knows its
+                    # key; a raw token is sent with an explicit key); anything else is a forged token over RESP
+                    tok = "forged"
+                    if cur is not None and cur[0].startswith("T:") and r.random() < 0.7:
+                        tok = cur[0][2:]
+                        was = getattr(orc, "tokpath", {}).get(tok, "raw")
+                        lp = "raw" if was == "raw" else r.choice(["emb", "cli"])
+                    else:
+                        lp = "raw"
+                    if c < 0.75:
+                        yield "c.unlock %s %d %s %s %s" % (lp, m, dm, lkey, tok)
+                    else:
+                        yield "c.lease %s %d %s %s %s %d" % (lp, m, dm, lkey, tok, r.choice([100, 5000]))
+            elif w < 0.955:
+                yield "c.destroy %s %d %s" % (r.choice(["emb", "cli", "raw"]), m, r.choice(dms))
+            elif w < 0.985:
+                # several commands queued in one pipeline, one Exec, then every future read back
+                cmds = []
+                for _ in range(r.randint(2, 7)):
+                    k = hx(r.choice(keys))
+                    yield "c.own %s %s" % (dm, k)
+                    ver += 1
+                    c = r.random()
+                    if c < 0.3:
+                        cmds.append("put:%s:%s" % (k, hx(b"p%d" % ver)))
+                    elif c < 0.55:
+                        cmds.append("getput:%s:%s" % (k, hx(b"q%d" % ver + b"y" * r.choice([0, 30]))))
+                    elif c < 0.75:
+                        cmds.append("get:%s" % k)
+                    elif c < 0.85:
+                        cmds.append("del:%s" % k)
+                    else:
+                        cmds.append("expire:%s:%d" % (k, r.choice([100, 5000])))
+                yield "c.pipeline %s %d %s %s" % (r.choice(["cli", "emb"]), m, dm, " ".join(cmds))
+                for c in cmds:
+                    yield "wb %s %s" % (dm, c.split(":")[1])
             else:
                 yield self.tick()
 
 
-REQUIRED_SHAPES = ["mirror_checked", "put_cond_and_ttl", "expire_present", "multi_key_delete", "read_after_expiry",
+REQUIRED_SHAPES = ["pipeline_multi", "pipeline_two_getputs", "incr_decr", "getput", "lock_acquired", "lock_contended", "wrong_token", "mirror_checked", "put_cond_and_ttl", "expire_present", "multi_key_delete", "read_after_expiry",
                    "read_from_non_owner"]
